@@ -70,8 +70,10 @@ func famCodec6(w *World) {
 	w.linkDefaults()
 	h := &c6Handler{w: w, obs: map[string]*c6Obs{}}
 	stracer := newSimTracer("s0", 1)
-	srv := w.addNode(NodeOpts{Name: "s0", Service: "svc0", Host: "10.0.2.1", Port: 5000, Conn: w.connOptsBig(), Handler: h, Tracer: stracer})
-	sub := scn(4)
+	// frames are reused without clearing (like a real pool): a decoder that looks past the
+	// declared frame size finds the bytes of an earlier message there
+	srv := w.addNode(NodeOpts{Name: "s0", Service: "svc0", Host: "10.0.2.1", Port: 5000, Conn: w.connOptsBig(), Handler: h, Tracer: stracer, PoolReuse: true})
+	sub := scn(5)
 	w.describe("codec6 sub-scenario=%d", sub)
 	switch sub {
 	case 0: // decode direction, server side: raw client sends call requests with boundary field values
@@ -418,6 +420,49 @@ func famCodec6(w *World) {
 		}
 		if err == nil {
 			w.violate("C06", "over-limit-value-accepted", "a value over its protocol length limit (field %d) was accepted end to end", which)
+		}
+	}
+	if sub == 4 {
+		// well-framed SHORT messages: the header declares exactly the bytes sent, the message
+		// needs more. Decoding must fail, not read on into whatever the frame buffer holds.
+		rp := w.newRawPeer("raw0", "10.0.9.1")
+		// a valid handshake first, so that the pooled frame holds a complete init req
+		if rc, err := rp.Dial(srv.HostPort); err == nil && rc.Handshake() == nil {
+			rc.c.Close()
+		}
+		sleep(10 * time.Millisecond)
+		full := wire.EncInit(wire.TInitReq, 1, 2, stdInitParams("10.0.9.1:7000", "rawproc"))
+		short, _ := hsCut(full, 3+scn(2))
+		rc, err := rp.Dial(srv.HostPort)
+		if err == nil {
+			rc.Send(short)
+			f, _ := rc.ReadFrame(8 * time.Second)
+			w.probe("ops.done")
+			w.eval("C06.short-frame")
+			if f != nil && f.Type == wire.TInitRes {
+				w.violate("C06", "short-frame-decoded", "an init req frame of %d bytes (header size %d; the full message is %d bytes) was accepted: the decoder read past the declared frame size", len(short), len(short), len(full))
+			}
+			rc.c.Close()
+		}
+		// the same towards a real client: a short init res
+		cli := w.addNode(NodeOpts{Name: "c0", Service: "client0", Host: "10.0.3.1", Conn: w.connOptsBig(), PoolReuse: true})
+		rs := w.newRawPeer("rawsrv", "10.0.8.1")
+		cut := 3 + scn(2)
+		hp := rs.Listen(6000, func(c *RawConn) {
+			f, err := c.ReadFrame(5 * time.Second)
+			if err != nil {
+				return
+			}
+			b, _ := hsCut(wire.EncInit(wire.TInitRes, f.ID, 2, stdInitParams("10.0.8.1:6000", "rawproc")), cut)
+			c.Send(b)
+			c.ReadFrame(5 * time.Second)
+		})
+		ctx, cancel := context.WithTimeout(context.Background(), 2*time.Second)
+		_, cerr := cli.Ch.Connect(ctx, hp)
+		cancel()
+		w.eval("C06.short-frame")
+		if cerr == nil {
+			w.violate("C06", "short-frame-decoded", "an init res frame cut to a well-framed short message (mode %d) was accepted by Connect: the decoder read past the declared frame size", cut)
 		}
 	}
 	w.quiesce(5*time.Second, true)
